@@ -20,9 +20,9 @@ CLAIMS = {
    note=TB + 'Level other: all functional units are bounded (<= 8 keys, chains <= 3). Rehash bucket placement is proved (HashMap_rehash_bin). Not decided: Set algebra, String keys, clone/merge. Histories by induction over the proved operations.',
    technique='CBMC code contracts (DFCC) with constant-bound sortedness / chain shape'),
  'C20': dict(level='proof', design='6 C20',
-   text='Algebraic clause only: the expression text of Matrix4/Matrix3 inverse() and det() is parsed on every run; A*adj = adj*A = d*I entrywise (so d != 0 implies M*inverse(M) = I), det() = Leibniz determinant = d, det(AB) = det(A)det(B); each is an SMT query that is unsat on z3 4.8, z3 5.1 and cvc5.',
-   note='Trusted: the 100-line expression parser/VC generator in vf/vcgen.py, z3, cvc5. Floating point treated as real arithmetic. NOT decided: solve(), least squares, floating residual bounds, quaternion/axis-angle/Euler conversions.',
-   technique='own VC generator over the extracted expression text + SMT (QF_NRA) on three solvers'),
+   text='Algebraic clause only: the expression text of Matrix4/Matrix3 inverse() and det() is parsed on every run; A*adj = adj*A = d*I entrywise (so d != 0 implies M*inverse(M) = I), det() = Leibniz determinant = d, det(AB) = det(A)det(B); each is an SMT query that is unsat on z3 4.8, z3 5.1 and cvc5. solve()/solve_() (both bodies cut, CBMC, BOUNDED to square 1x1..5x5 and over-determined 2x1..5x3 shapes with 1 or 2 right-hand sides, element values arbitrary): the caller\'s A and b blocks are never written, x comes back in a block of its own with one row per unknown, every element and permutation-vector access is in range, solve_ recurses at most once.',
+   note='Trusted: the 100-line expression parser/VC generator in vf/vcgen.py, z3, cvc5. Floating point treated as real arithmetic. NOT decided: that the x of solve() satisfies A x = b (values are not tracked), least squares optimality, floating residual bounds, quaternion/axis-angle/Euler conversions. The solve unit is bounded, not counted as proved.',
+   technique='own VC generator over the extracted expression text + SMT (QF_NRA) on three solvers; CBMC on the extracted solve()/solve_() bodies with matrix storage abstracted to block events (bounded)'),
  'C03': dict(level='proof', design='6 C03',
    text='Contracts (requires/ensures/assigns/frees) on the real bodies of String::resize, append, assign, concat, substring, substr, '
         'operator+=(char), String(const char*,int), copy constructor, String(int), String(Long), lastIndexOf, the retry loops of String::f and String(int n, fmt, ...) over a C99 vsnprintf contract, one turn of the split(sep)/replace(a,b) scanning loops over the strstr contract (pieces tile the text, strict progress for non-empty patterns), trim()/trimmed() on every inline string, operator< as a strict total byte-wise order (+ alloc/init/str/String(cap,n) inlined), '
